@@ -23,6 +23,9 @@ CONSTANTS NMax,    \* vector lengths 1..NMax
 Slopes == {<<-2, 1>>, <<-1, 1>>, <<-1, 2>>, <<0, 1>>, <<1, 2>>, <<1, 1>>, <<2, 1>>}
 EpsQs  == {<<1, 1>>, <<1, 4>>}      \* stand-ins for eps in laws that hold for EVERY eps > 0
 
+\* integer and half-integer intercepts (a flat line at a non-integer level over integer abscissae must stay non-integer)
+Intercepts == {<<b, 1>> : b \in 0..BMax} \cup {<<2 * b + 1, 2>> : b \in 0..(BMax - 1)}
+
 Vecs(n, hi) == [1..n -> 0..hi]
 Incr(n, hi) == {s \in Vecs(n, hi) : \A i \in 1..(n-1) : s[i] < s[i+1]}
 
@@ -41,8 +44,8 @@ Groups ==
     \cup {[kind |-> "group", of |-> "angle"]}
 CasesOf(g) ==
     IF g.of = "pair" THEN {[kind |-> "pair", y |-> g.y, h |-> h] : h \in Vecs(Len(g.y), VMax)}
-    ELSE IF g.of = "line" THEN {[kind |-> "line", x |-> g.x, y |-> y, b |-> <<b, 1>>, m |-> g.m] :
-                                   y \in Vecs(Len(g.x), LVMax), b \in 0..BMax}
+    ELSE IF g.of = "line" THEN {[kind |-> "line", x |-> g.x, y |-> y, b |-> b, m |-> g.m] :
+                                   y \in Vecs(Len(g.x), LVMax), b \in Intercepts}
     ELSE IF g.of = "fit" THEN {[kind |-> "fit", x |-> g.x, y |-> y] : y \in Vecs(Len(g.x), FMax)}
     ELSE {[kind |-> "angle", m1 |-> m1, m2 |-> m2] : m1 \in Slopes, m2 \in Slopes}
 
